@@ -27,6 +27,8 @@ package main
 //@   # `length` bytes from the position the reader had on entry (a short read must not be parsed)
 //@   # (for a length the platform can allocate at all: make panics beyond MaxInt64)
 //@   fncall parseNodeFromSection requires length <= 9223372036854775807 ==> len(arg0) == int(length) && (forall j int :: 0 <= j && j < len(arg0) ==> arg0[j] == fbyte(br, atentry(consumed(br)) + j))
+//@   # ... and nothing is answered without that comparison: a successful answer went through parseNodeFromSection exactly once
+//@   ensures result1 == nil ==> called(parseNodeFromSection) == 1
 //@   noframe
 
 //@ func readNodeFromReaderAtWithOffsetAndSize
@@ -35,4 +37,6 @@ package main
 //@   fncall parseNodeFromSection requires arg1 == wantedCid
 //@   # C13: the whole section as it stands in the file at `offset`
 //@   fncall parseNodeFromSection requires length <= 9223372036854775807 ==> len(arg0) == int(length) && (forall j int :: 0 <= j && j < len(arg0) ==> arg0[j] == fbyte(reader, int(offset) + j))
+//@   # ... and nothing is answered without that comparison: a successful answer went through parseNodeFromSection exactly once
+//@   ensures result1 == nil ==> called(parseNodeFromSection) == 1
 //@   noframe
